@@ -75,13 +75,24 @@ func RunC05(c *engine.Ctx) {
 					vcrand.Record()
 					var ct []byte
 					var err error
-					if pn := safely(func() { _, ct, err = g.EncryptMessage(key, append([]byte{}, pt...), u) }); pn != "" {
+					// the plaintext is a sub-slice of a larger buffer of the caller's (spare capacity behind it holds the caller's
+					// other data) and the key likewise: neither the slices nor what lies behind them may be written to
+					arena := append(append(append([]byte{}, pt...), sentinel...), 0)[:len(pt)+len(sentinel)]
+					ptIn := arena[:len(pt):len(arena)]
+					karena := append(append([]byte{}, key...), sentinel...)
+					keyIn := karena[:len(key):len(karena)]
+					if pn := safely(func() { _, ct, err = g.EncryptMessage(keyIn, ptIn, u) }); pn != "" {
 						c.Violate("enc", fmt.Sprintf("enc:et%d:panic", et), map[string]interface{}{"panic": pn}, cs)
 						vcrand.Stop()
 						continue
 					}
 					draws := vcrand.Stop()
 					c.Add("evaluations", 1)
+					if !bytes.Equal(arena[:len(pt)], pt) || !bytes.Equal(arena[len(pt):], sentinel) || !bytes.Equal(karena[:len(key)], key) || !bytes.Equal(karena[len(key):], sentinel) {
+						c.Violate("enc", fmt.Sprintf("enc:et%d:modifies-caller-buffers", et), map[string]interface{}{"plaintext_changed": !bytes.Equal(arena[:len(pt)], pt), "bytes_behind_the_plaintext_changed": !bytes.Equal(arena[len(pt):], sentinel),
+							"key_changed": !bytes.Equal(karena[:len(key)], key), "bytes_behind_the_key_changed": !bytes.Equal(karena[len(key):], sentinel)}, cs)
+						continue
+					}
 					if err != nil {
 						c.Violate("enc", fmt.Sprintf("enc:et%d:error:%s", et, usageClass(u)), map[string]interface{}{"err": err.Error()}, cs)
 						continue
@@ -247,6 +258,9 @@ func RunC05(c *engine.Ctx) {
 	concurrentSchedules(c, "C05")
 	c.Cov["rule"] = "full product etype(6) x plaintext length 0..130 x usage set x keys x 2 directions; distinct = (etype,len,usage) cells in which both directions agreed with the reference"
 }
+
+// sentinel lies behind the caller's plaintext and key in their buffers.
+var sentinel = []byte("SENTINEL-bytes-of-the-caller-behind-the-slice-0123456789")
 
 // aliasHistories: operation sequences in which the caller reuses one key
 // buffer, overwriting it in place between calls (A, B, A) and one data buffer;
